@@ -214,6 +214,17 @@ def generic_check(pid, tier, seed, mod):
         if hit: hit["_seen"] = True
         else: unknown.append((s, det))
     for f in kf:
+        # replay the recorded input: the finding is named as long as it still fails
+        if "replay" in f:
+            try:
+                sc = Scenario(f["replay"])
+                _m, _i, _l = run_all([sc], flavour=flavour)
+                line = _i[0][0][f["persists_if"]["cmd_index"]]
+                if f["persists_if"]["contains"] not in line:
+                    notes.append("known finding %s no longer reproduces" % f["id"])
+                    continue
+            except Exception as e:
+                notes.append("known finding %s could not be replayed: %r" % (f["id"], e))
         out_lines.append("KNOWN-FINDING: property=%s %s" % (pid, f["what"]))
 
     def fails(sc):
